@@ -112,6 +112,9 @@ def irdl_init(interp, self_obj, operands=(), result_types=(), properties=None, a
     F["regions"] = regs
     F["parent"] = None
     F["successors"] = seq(successors)
+    implicit = xir.get("IMPLICIT")
+    if implicit:
+        interp.call(interp.getattr(implicit[-1], "add_op"), [self_obj], {})
     return None
 
 
